@@ -26,6 +26,8 @@ struct DecCase {
     response: bool,
     /// None: chooser decides; Some(pattern): fixed
     fixed: Option<Vec<usize>>,
+    /// the body announces its exact total length (as one that arrived with a content-length does)
+    sized: bool,
 }
 
 fn dec_body(c: &DecCase, ch: &Chooser) -> Outcome {
@@ -62,6 +64,7 @@ fn dec_body(c: &DecCase, ch: &Chooser) -> Outcome {
         None => Chunking::Choose { free: false, pending: false, empty: false },
     };
     let sb = ScriptBody::new(input.clone(), None, chunking, ch);
+    let sb = if c.sized { sb.with_exact_size() } else { sb };
     let stats = sb.stats();
     let dec = RawCodec::new(BufferSettings::new(8, 16)).decoder();
     let enc = c.enc.map(tonic_enc);
@@ -174,8 +177,9 @@ fn dec_cases(tier: Tier) -> Vec<DecCase> {
                     if tier == Tier::Quick && limit == 64 && pos == 1 {
                         continue;
                     }
-                    out.push(DecCase { frames: frames.clone(), bare_prefix: None, enc: None, limit: Some(limit), response, fixed: None });
-                    out.push(DecCase { frames, bare_prefix: None, enc: None, limit: Some(limit), response, fixed: Some(vec![1]) });
+                    out.push(DecCase { frames: frames.clone(), bare_prefix: None, enc: None, limit: Some(limit), response, fixed: None, sized: false });
+                    out.push(DecCase { frames: frames.clone(), bare_prefix: None, enc: None, limit: Some(limit), response, fixed: Some(vec![]), sized: true });
+                    out.push(DecCase { frames, bare_prefix: None, enc: None, limit: Some(limit), response, fixed: Some(vec![1]), sized: false });
                 }
             }
             // bare prefixes with nothing after them
@@ -185,7 +189,7 @@ fn dec_cases(tier: Tier) -> Vec<DecCase> {
                 }
                 for lead in 0..2 {
                     let frames: Vec<(u8, Vec<u8>)> = (0..lead).map(|_| (0u8, small[..small.len().min(limit)].to_vec())).collect();
-                    out.push(DecCase { frames: frames.clone(), bare_prefix: Some(n), enc: None, limit: Some(limit), response, fixed: None });
+                    out.push(DecCase { frames: frames.clone(), bare_prefix: Some(n), enc: None, limit: Some(limit), response, fixed: None, sized: false });
                 }
             }
         }
@@ -204,28 +208,38 @@ fn dec_cases(tier: Tier) -> Vec<DecCase> {
                             frames.push((0u8, vec![1, 2]));
                         }
                     }
-                    out.push(DecCase { frames, bare_prefix: None, enc: Some(e), limit: Some(limit), response, fixed: None });
+                    out.push(DecCase { frames, bare_prefix: None, enc: Some(e), limit: Some(limit), response, fixed: None, sized: false });
                 }
+            }
+        }
+        // compressed, well compressible: the decompressed length is far above a limit that the wire length meets
+        for e in Enc::ALL {
+            let plain = vec![0u8; 1000];
+            let z = comp::compress(e, &plain);
+            for delta in [-1i64, 0, 1, 10] {
+                let limit = (z.len() as i64 + delta) as usize;
+                let frames = vec![(0u8, vec![1, 2]), (1u8, z.clone()), (0u8, vec![3])];
+                out.push(DecCase { frames, bare_prefix: None, enc: Some(e), limit: Some(limit), response, fixed: None, sized: false });
             }
         }
         // limits of 4 GiB and more (must not be truncated to 32 bits): small messages are within them
         for limit in [1usize << 32, (1usize << 32) + 16, 1usize << 33, (1usize << 40) + 3, usize::MAX] {
             let frames = vec![(0u8, vec![7u8; 5]), (0u8, vec![8u8; 40])];
-            out.push(DecCase { frames: frames.clone(), bare_prefix: None, enc: None, limit: Some(limit), response, fixed: None });
-            out.push(DecCase { frames, bare_prefix: Some(u32::MAX), enc: None, limit: Some(limit), response, fixed: Some(vec![1]) });
+            out.push(DecCase { frames: frames.clone(), bare_prefix: None, enc: None, limit: Some(limit), response, fixed: None, sized: false });
+            out.push(DecCase { frames, bare_prefix: Some(u32::MAX), enc: None, limit: Some(limit), response, fixed: Some(vec![1]), sized: false });
         }
         // the default limit (4 MiB)
         for delta in [-1i64, 0, 1] {
             let l = (MIB4 as i64 + delta) as usize;
             let frames = vec![(0u8, vec![3u8; 3]), (0u8, vec![0x11u8; l])];
-            out.push(DecCase { frames: frames.clone(), bare_prefix: None, enc: None, limit: None, response, fixed: Some(vec![8, 5, 1 << 20]) });
+            out.push(DecCase { frames: frames.clone(), bare_prefix: None, enc: None, limit: None, response, fixed: Some(vec![8, 5, 1 << 20]), sized: false });
             if tier == Tier::Thorough {
-                out.push(DecCase { frames, bare_prefix: None, enc: None, limit: None, response, fixed: Some(vec![]) });
+                out.push(DecCase { frames, bare_prefix: None, enc: None, limit: None, response, fixed: Some(vec![]), sized: false });
             }
         }
         for n in [MIB4 as u32 + 1, 1 << 24, u32::MAX] {
-            out.push(DecCase { frames: vec![(0u8, vec![3u8; 3])], bare_prefix: Some(n), enc: None, limit: None, response, fixed: None });
-            out.push(DecCase { frames: vec![], bare_prefix: Some(n), enc: None, limit: None, response, fixed: Some(vec![1]) });
+            out.push(DecCase { frames: vec![(0u8, vec![3u8; 3])], bare_prefix: Some(n), enc: None, limit: None, response, fixed: None, sized: false });
+            out.push(DecCase { frames: vec![], bare_prefix: Some(n), enc: None, limit: None, response, fixed: Some(vec![1]), sized: false });
         }
     }
     out
@@ -390,18 +404,23 @@ struct GenCase {
     client: (Option<usize>, Option<usize>),
     req_len: usize,
     resp_len: usize,
+    /// the call is made through clones of the configured client and server
+    via_clone: bool,
 }
 
 fn gen_body(c: &GenCase, ch: &Chooser) -> Outcome {
     use super::l1::*;
     use crate::fixtures::echo::echo_client::EchoClient;
-    let script = Script { initial_md: vec![], msgs: vec![vec![0x33; c.resp_len]], end: None, handler_err: false, bidi: BidiMode::ReadAll, disable_compression: false };
+    let script = Script { initial_md: vec![], msgs: vec![vec![0x33; c.resp_len]], end: None, handler_err: false, bidi: BidiMode::ReadAll, disable_compression: false, exact_hint: false };
     let (mut server, log) = new_server(script, ch, false);
     if let Some(l) = c.server.0 {
         server = server.max_decoding_message_size(l);
     }
     if let Some(l) = c.server.1 {
         server = server.max_encoding_message_size(l);
+    }
+    if c.via_clone {
+        server = server.clone();
     }
     let capture = std::sync::Arc::new(std::sync::Mutex::new(Capture::default()));
     let direct = Direct { svc: server, ch: ch.clone(), req_chunking: Chunking::Fixed(vec![]), resp_chunking: Chunking::Fixed(vec![]), capture };
@@ -411,6 +430,9 @@ fn gen_body(c: &GenCase, ch: &Chooser) -> Outcome {
     }
     if let Some(l) = c.client.1 {
         client = client.max_encoding_message_size(l);
+    }
+    if c.via_clone {
+        client = client.clone();
     }
     let req = vec![0x44u8; c.req_len];
     let view = match crate::env::spin_block_on(client_call(&mut client, c.shape, vec![req.clone()], &vec![], false, ch, |_| {}), 200_000) {
@@ -461,7 +483,8 @@ fn gen_cases() -> Vec<GenCase> {
         for server in limits {
             for client in limits {
                 for (req_len, resp_len) in [(8usize, 8usize), (17, 8), (8, 17), (16, 16)] {
-                    out.push(GenCase { shape, server, client, req_len, resp_len });
+                    out.push(GenCase { shape, server, client, req_len, resp_len, via_clone: false });
+                    out.push(GenCase { shape, server, client, req_len, resp_len, via_clone: true });
                 }
             }
         }
@@ -473,9 +496,9 @@ pub fn property(tier: Tier) -> Property {
     let dec = Section::new(
         "decode-limit",
         Config { max_bound: tier.q(1, 2), ..Default::default() },
-        "cases: limit L in {0,1,5,64,default 4 MiB, and 2^32, 2^32+16, 2^33, 2^40+3, usize::MAX with small messages that must be accepted} x a message of wire length L-1/L/L+1 (identity; gzip/deflate/zstd with the limit placed around the compressed length) at position 1/2/3 of a stream, and bare 5-byte prefixes declaring L+1, 2^24, 2^32-1 with nothing after them, x request/response; environment: every chunking with <= bound cuts (incl. the cut right after the prefix) plus drip; oracle: accepted iff wire length <= L, else OUT_OF_RANGE with no chunk requested beyond the one completing the prefix and (declared >= 1 MiB) no allocation >= the declared length (tracking allocator). Non-trivial = some message exactly at or over the limit.",
+        "cases: limit L in {0,1,5,64,default 4 MiB, and 2^32, 2^32+16, 2^33, 2^40+3, usize::MAX with small messages that must be accepted} x a message of wire length L-1/L/L+1 (identity; gzip/deflate/zstd with the limit placed around the compressed length, also for a 1000-byte message that compresses to far below the limit it must pass under) at position 1/2/3 of a stream (also as a body that announces its exact total length, as one that arrived with a content-length does), and bare 5-byte prefixes declaring L+1, 2^24, 2^32-1 with nothing after them, x request/response; environment: every chunking with <= bound cuts (incl. the cut right after the prefix) plus drip; oracle: accepted iff wire length <= L, else OUT_OF_RANGE with no chunk requested beyond the one completing the prefix and (declared >= 1 MiB) no allocation >= the declared length (tracking allocator). Non-trivial = some message exactly at or over the limit.",
         dec_cases(tier),
-        |c: &DecCase| format!("frames={:?} bare={:?} enc={} limit={:?} response={} fixed={:?}", c.frames.iter().map(|(f, p)| (*f, p.len())).collect::<Vec<_>>(), c.bare_prefix, enc_name(c.enc), c.limit, c.response, c.fixed.as_ref().map(|v| v.len())),
+        |c: &DecCase| format!("frames={:?} bare={:?} enc={} limit={:?} response={} fixed={:?} sized={}", c.frames.iter().map(|(f, p)| (*f, p.len())).collect::<Vec<_>>(), c.bare_prefix, enc_name(c.enc), c.limit, c.response, c.fixed.as_ref().map(|v| v.len()), c.sized),
         dec_body,
     )
     .mins(500, 5, 50);
@@ -491,7 +514,7 @@ pub fn property(tier: Tier) -> Property {
     let gen = Section::new(
         "generated-limits",
         Config::default(),
-        "cases: generated server and generated client, each configured through its builder with {no limit, decoding limit 16, encoding limit 16, both} (16 combinations) x call shape x (request, response) message lengths {(8,8),(17,8),(8,17),(16,16)}, in-process; oracle: a request over the client's encoding limit or the server's decoding limit never reaches the handler; a response over the server's encoding limit or the client's decoding limit ends the call with OUT_OF_RANGE; anything within every limit on its path is delivered. Non-trivial = some limit is exceeded.",
+        "cases: generated server and generated client, each configured through its builder with {no limit, decoding limit 16, encoding limit 16, both} (16 combinations) x call shape x (request, response) message lengths {(8,8),(17,8),(8,17),(16,16)} x {the configured client and server themselves, clones of them}, in-process; oracle: a request over the client's encoding limit or the server's decoding limit never reaches the handler; a response over the server's encoding limit or the client's decoding limit ends the call with OUT_OF_RANGE; anything within every limit on its path is delivered. Non-trivial = some limit is exceeded.",
         gen_cases(),
         |c: &GenCase| format!("{c:?}"),
         gen_body,
